@@ -594,3 +594,6 @@ func OrKey(x, y *Term) string {
 
 // NotTerm wraps a term in a negation (for use with OrKey).
 func NotTerm(t *Term) *Term { return &Term{K: KUn, S: "!", A: []*Term{t}} }
+
+// RetSummaryOf returns the return summary of a repository function.
+func (p *Program) RetSummaryOf(fn *ssa.Function) *RetSummary { return p.retSummary(fn, 0) }
